@@ -271,6 +271,20 @@ def run(case):
             c.cmp(sub + "/framework-vs-component/stress", "small-strain framework linear_elastic vs component-wise", ms.gradient([F, np.zeros((18, n, 1))])[0], Pa, 1e-12, labels)
             Ams = ms.hessian([F, np.zeros((18, n, 1))])[0]
             c.cmp(sub + "/framework-vs-component/elasticity", "small-strain framework tangent vs component-wise", Ams, a.hessian([F, sv])[0], 1e-12)
+            # load histories through the small-strain framework: the state variables returned by one evaluation are the old
+            # state of the next (every ordered pair / triple of three scaled states): a linear-elastic law is path independent,
+            # the stress must be the component-wise law's at the LAST state, the stored strain sym(F) - 1 of the last state
+            scales = (1.0, -0.6, 2.3)
+            for hist in list(itertools.permutations(range(3), 2)) + list(itertools.permutations(range(3), 3)):
+                svh = np.zeros((18, n, 1))
+                for k_ in hist:
+                    Fh = np.eye(3)[:, :, None, None] + scales[k_] * (F - np.eye(3)[:, :, None, None])
+                    out_ = ms.gradient([Fh, svh])
+                    c.trans += 1
+                    svh = np.array(out_[-1], dtype=float, copy=True)
+                lab = sub + "/framework-history=" + ">".join(str(scales[k_]) for k_ in hist)
+                Fl = np.eye(3)[:, :, None, None] + scales[hist[-1]] * (F - np.eye(3)[:, :, None, None])
+                c.cmp(lab + "/stress", "small-strain framework linear_elastic after a load history vs the component-wise law at the last state", out_[0], a.gradient([Fl, sv])[0], 1e-11, labels)
             AI, PI = tangent_at_I(ls)
             c.cmp(sub + "/large-strain-at-I/elasticity", "LinearElasticLargeStrain tangent at F = I vs linear elasticity", AI, a.hessian()[0][..., 0, 0], 1e-10)
             c.cmp(sub + "/large-strain-at-I/stress", "LinearElasticLargeStrain stress at F = I", PI, np.zeros((3, 3)), 1e-12)
